@@ -362,8 +362,86 @@ fn msg() -> impl Strategy<Value = Msg> {
     (ch, 0usize..9, len, any::<u8>()).prop_map(|(channel, cmd, len, fill)| Msg { channel, cmd, len, fill, embed: vec![] })
 }
 
+/// a writer that fails its k-th write with the given error kind (and records what it accepted)
+struct FaultyWriter {
+    accepted: Vec<Vec<u8>>,
+    calls: usize,
+    fail_at: usize,
+    kind: std::io::ErrorKind,
+}
+impl std::io::Write for FaultyWriter {
+    fn write(&mut self, buf: &[u8]) -> std::io::Result<usize> {
+        let n = self.calls;
+        self.calls += 1;
+        if n == self.fail_at {
+            return Err(std::io::Error::new(self.kind, "injected"));
+        }
+        self.accepted.push(buf.to_vec());
+        Ok(buf.len())
+    }
+    fn flush(&mut self) -> std::io::Result<()> {
+        Ok(())
+    }
+}
+
+/// the transport fails one write call: the sender may report the failure, but when it reports success the transport must
+/// have been handed the complete packet stream ("written as one initialisation packet followed by ...")
+pub fn check_write_fault(ctx: &mut Ctx, c: &(Msg, usize, u8)) -> Result<(), String> {
+    use std::io::ErrorKind as K;
+    let (m, at, kind) = c;
+    ctx.eval();
+    let Some(full) = send(m)? else { return Ok(()) };
+    let kind = [K::Interrupted, K::WouldBlock, K::BrokenPipe, K::TimedOut, K::WriteZero, K::Other, K::UnexpectedEof, K::ConnectionReset][*kind as usize % 8];
+    let data = payload(m);
+    let Ok(msg) = Message::new(m.channel, COMMANDS[m.cmd].0, &data) else { return Ok(()) };
+    let mut w = FaultyWriter { accepted: vec![], calls: 0, fail_at: at % full.len(), kind };
+    let r = catch_unwind(AssertUnwindSafe(|| msg.send(&mut w))).map_err(|_| format!("Message::send panicked when a write failed: {}", crate::last_panic()))?;
+    ctx.nontrivial(c);
+    match r {
+        Err(_) => {
+            ctx.class("write-fault/reported");
+            Ok(())
+        }
+        Ok(()) => {
+            ctx.class("write-fault/success reported");
+            if w.accepted != full {
+                return Err(format!("write call #{} of {} failed with {kind:?}; the sender reported success although the transport accepted {} of the {} packets of the message", at % full.len(), full.len(), w.accepted.len(), full.len()));
+            }
+            Ok(())
+        }
+    }
+}
+
+/// a fragmented message whose sender pauses (real time) between its packets while another channel transmits: reassembly
+/// does not depend on when packets arrive
+fn slow_sender(pause_ms: u64) -> Result<(), String> {
+    let a = Msg { channel: 0x0A0A_0A0A, cmd: 1, len: 150, fill: 5, embed: vec![] };
+    let b = Msg { channel: 0x0B0B_0B0B, cmd: 3, len: 20, fill: 6, embed: vec![] };
+    let (pa, pb) = (send(&a)?.ok_or("refused")?, send(&b)?.ok_or("refused")?);
+    let mut h = ChannelHandler::default();
+    if h.handle_packet(&pa[0]).is_some() {
+        return Err("a message was delivered on its first packet".into());
+    }
+    match h.handle_packet(&pb[0]) {
+        Some(got) => same(&b, &got)?,
+        None => return Err("a single-packet message was not delivered".into()),
+    }
+    std::thread::sleep(std::time::Duration::from_millis(pause_ms));
+    if h.handle_packet(&pa[1]).is_some() {
+        return Err("a message was delivered before its last packet".into());
+    }
+    std::thread::sleep(std::time::Duration::from_millis(pause_ms / 8));
+    match h.handle_packet(&pa[2]) {
+        Some(got) => same(&a, &got).map_err(|e| format!("after a pause of {pause_ms} ms between the packets of a message: {e}")),
+        None => Err(format!("a fragmented message whose packets arrived with a pause of {pause_ms} ms between them was never delivered")),
+    }
+}
+
 pub fn run(ctx: &mut Ctx) {
     let fs = ctx.first_shard();
+    // (runs beside the other stages; joined at the end)
+    let pause = ctx.tier.pick(3_600u64, 12_000u64);
+    let slow = fs.then(|| std::thread::spawn(move || slow_sender(pause)));
     ctx.rule = "messages over channel ids (0, broadcast, random), all nine commands, payload lengths (every value 0..=7700, 65535/65536/70000, random) with zero / 0xFF / pseudo-random contents: sender output parsed by an independent packet parser and fed to a fresh receiver; the delivered message is sent on again and must arrive at the next receiver unchanged. Sequences of 1-6 transmissions through one receiver (a third of them repeat the transmission before), and every command with every one-byte payload value followed by transmissions on other channels. Interleavings of 2-4 channels: ALL order-preserving merges when the streams have at most 9 packets in total, generated merges otherwise (uniformly mixed ones with up to 26 packets per channel, and skewed ones in which one channel pauses inside its message while others send whole messages of up to 129 packets and a further channel starts only afterwards; a third of the generated merges run on a receiver that still holds given-up transmissions on the same channels, half of them see stray continuation packets of an idle channel). Non-trivial = message with at least one continuation packet, a refused over-long payload, or a merge of at least two channels; distinct by message / by (messages, order).".into();
     ctx.assumptions = vec![
         "the channel id byte order is accepted as either endianness but must be the same in all packets and round-trip".into(),
@@ -558,6 +636,25 @@ pub fn run(ctx: &mut Ctx) {
         Search::Pass => {}
         Search::Fail(m, e) => ctx.violation("merges-skewed", json!(m), &e),
     }
+    // ---- the transport fails one write
+    let wf = (msg(), any::<usize>(), any::<u8>()).prop_map(|(mut m, at, kind)| {
+        m.len %= 1200;
+        (m, at, kind)
+    });
+    let n = ctx.tier.pick(3_000u32, 300_000u32);
+    match search(ctx, 29, n, wf, check_write_fault) {
+        Search::Pass => {}
+        Search::Fail(c, e) => ctx.violation("write-fault", json!(c), &e),
+    }
+    if let Some(t) = slow {
+        ctx.eval();
+        ctx.class("slow sender (real pause between the packets of a message)");
+        match t.join() {
+            Ok(Ok(())) => {}
+            Ok(Err(e)) => ctx.violation("slow-sender", json!(pause), &e),
+            Err(_) => ctx.violation("slow-sender", json!(pause), "the receiver panicked"),
+        }
+    }
 }
 
 /// several transmissions one after the other through the same receiver (same or different channels, now and then the
@@ -596,6 +693,15 @@ pub fn replay(ctx: &mut Ctx, stage: &str, case: &Value) -> Result<(), String> {
     if stage == "sequences" {
         let m: Vec<Msg> = serde_json::from_value(case.clone()).map_err(|e| format!("bad case: {e}"))?;
         return check_sequence(ctx, &m);
+    }
+    if stage == "write-fault" {
+        let c: (Msg, usize, u8) = serde_json::from_value(case.clone()).map_err(|e| format!("bad case: {e}"))?;
+        return check_write_fault(ctx, &c);
+    }
+    if stage == "slow-sender" {
+        let pause: u64 = serde_json::from_value(case.clone()).map_err(|e| format!("bad case: {e}"))?;
+        ctx.eval();
+        return slow_sender(pause);
     }
     if stage.starts_with("merges") {
         let m: Merge = serde_json::from_value(case.clone()).map_err(|e| format!("bad case: {e}"))?;
